@@ -14,7 +14,7 @@ ANCHORS = [("model/residuals.py", "model_direction_agnostic"),
 MIN_EVALS = {"quick": 3000, "thorough": 60000}
 MIN_EVENTS = {"order-sensitive user function calls": 100}
 TIMEOUT = {"quick": 600, "thorough": 3000}
-N_CASES = {"quick": 400, "thorough": 9000}     # per shard
+N_CASES = {"quick": 400, "thorough": 60000}     # per shard
 RULE = ("case = (registered model incl. 4 harness models, parameter vector, "
         "dyadic abscissa array, orientation); every case evaluates 8 "
         "relations (order/shape, user function sees approach order, "
